@@ -128,16 +128,54 @@ Definition nb_h (st : store) (h : hop) (cur : Z) : list (Z * Z) :=
 Lemma ostep_h_nb st h cur : ostep_h st h cur = map (fun te => (snd te, fst te)) (nb_h st h cur).
 Proof. unfold ostep_h, nb_h, ostep. destruct (h_len h) as [|mn mx]; [reflexivity|]. destruct (is_single_hop mn mx); reflexivity. Qed.
 
-Lemma hop_sem_g st h x i input t :
+(** node variables sit in NodeId vectors *)
+Definition nodecells (t : tbl) (xs : list string) : Prop :=
+  forall r x, List.In r (rows t) -> List.In x xs -> exists i, col_cell (cols t) r x = CNode i.
+Lemma pos_last_app_notin x cs ds : ~ List.In x ds -> pos_last x (cs ++ ds) = pos_last x cs.
+Proof.
+  intros H. induction cs as [|c cs IH]; cbn [app pos_last]; [apply pos_last_none; exact H|]. rewrite IH. reflexivity.
+Qed.
+Lemma nth_error_app_lt {A} (l l' : list A) i : (i < List.length l)%nat -> nth_error (l ++ l') i = nth_error l i.
+Proof. intros H. apply nth_error_app1. exact H. Qed.
+Lemma gen_expand_nodecells (nb : Z -> list (Z * Z)) t i h xs :
+  wfc t -> hop_fresh (cols t) h -> nodecells t xs -> (forall x, List.In x xs -> List.In x (cols t)) -> ~ List.In anon xs ->
+  nodecells (mkT (cols t ++ [edge_col (h_evar h); np_var (h_to h)])
+                 (flat_map (fun r => map (fun te => r ++ [CEdge (snd te); CNode (fst te)]) (nb (cur_of i r))) (rows t)))
+            (np_var (h_to h) :: xs).
+Proof.
+  intros [_ Hw] (Hf1 & Hf2 & Hf3 & Hf4) Hn Hin Hna r' x Hr' Hx. cbn [rows mkT] in Hr'. apply in_flat_map in Hr'.
+  destruct Hr' as (r & Hr & Hr'). apply in_map_iff in Hr'. destruct Hr' as (te & <- & _).
+  destruct (Hw r Hr) as [Hl _]. cbn [cols mkT]. destruct Hx as [<-|Hx].
+  - exists (fst te). unfold col_cell, row_look. rewrite pos_last_app_last. cbn [obind]. rewrite Hl, nth_error_app_len. reflexivity.
+  - destruct (Hn r x Hr Hx) as (j & Hj). exists j. rewrite <- Hj. unfold col_cell, row_look.
+    assert (Hnot : ~ List.In x [edge_col (h_evar h); np_var (h_to h)]).
+    { pose proof (Hin x Hx) as Hxc. intros [He|[He|[]]].
+      - unfold edge_col in He. destruct (h_evar h) as [e|].
+        + destruct Hf4 as [_ Hf5]. subst x. exact (existsb_eqb_false _ _ Hf5 Hxc).
+        + subst x. exact (Hna Hx).
+      - subst x. exact (existsb_eqb_false _ _ Hf1 Hxc). }
+    rewrite (pos_last_app_notin x (cols t) _ Hnot).
+    destruct (pos_last_some x (cols t) (Hin x Hx)) as (p0 & Hp & Hlt). rewrite Hp. cbn [obind].
+    rewrite nth_error_app_lt by lia. reflexivity.
+Qed.
+
+Lemma nodecells_incl t xs ys : (forall x, List.In x ys -> List.In x xs) -> nodecells t xs -> nodecells t ys.
+Proof. intros H Hn r x Hr Hx. apply Hn; [exact Hr|apply H; exact Hx]. Qed.
+Lemma nodecells_filter keep t xs : nodecells t xs -> nodecells (filter_tbl keep t) xs.
+Proof. intros Hn r x Hr Hx. cbn [filter_tbl rows mkT cols] in *. apply filter_In in Hr. apply Hn; [apply Hr|exact Hx]. Qed.
+
+Lemma hop_sem_g st h x i input t xs :
   sem_ops st input = Ok t -> good t x i -> wfc t -> hop_fresh (cols t) h ->
+  nodecells t xs -> (forall y, List.In y xs -> List.In y (cols t)) -> ~ List.In anon xs ->
   exists t', sem_ops st (hop_plan x h input) = Ok t' /\
              cols t' = cols t ++ [edge_col (h_evar h); np_var (h_to h)] /\
-             good t' (np_var (h_to h)) (S (List.length (cols t))) /\ wfc t' /\
+             good t' (np_var (h_to h)) (S (List.length (cols t))) /\ wfc t' /\ nodecells t' (np_var (h_to h) :: xs) /\
              map (abs t' (S (List.length (cols t)))) (rows t') = flat_map (obind_hop_g st h) (map (abs t i) (rows t)).
 Proof.
-  intros Hs Hg Hw Hf.
+  intros Hs Hg Hw Hf Hnc Hxs Hna.
   set (t1 := mkT (cols t ++ [edge_col (h_evar h); np_var (h_to h)])
                  (flat_map (fun r => map (fun te => r ++ [CEdge (snd te); CNode (fst te)]) (nb_h st h (cur_of i r))) (rows t))).
+  pose proof (gen_expand_nodecells (nb_h st h) t i h xs Hw Hf Hnc Hxs Hna) as Hnc'. fold t1 in Hnc'.
   pose proof (gen_expand_good (nb_h st h) t x i h Hg Hf) as Hg'.
   pose proof (gen_expand_abs (nb_h st h) t x i h Hg Hf) as Habs.
   pose proof (gen_expand_wfc (nb_h st h) t i h Hw Hf) as Hw'.
@@ -160,13 +198,13 @@ Proof.
   { rewrite Habs. apply flat_map_ext_in. intros ec _. rewrite ostep_h_nb. reflexivity. }
   clear Habs.
   destruct (np_labels (h_to h)) as [|l ls] eqn:Elab.
-  - exists t1. split; [exact Hex|]. split; [reflexivity|]. split; [exact Hg'|]. split; [exact Hw'|].
+  - exists t1. split; [exact Hex|]. split; [reflexivity|]. split; [exact Hg'|]. split; [exact Hw'|]. split; [exact Hnc'|].
     rewrite Habs'. apply flat_map_ext_in. intros ec _. unfold obind_hop_g.
     rewrite (filter_ext_in' _ (fun _ => true)); [|intros a _; unfold first_label_ok; rewrite Elab; reflexivity].
     rewrite filter_true. reflexivity.
   - set (keep := fun r => passes_row st (cols t1) r (EHasLabel (np_var (h_to h)) l)).
     exists (filter_tbl keep t1). split; [rewrite sem_ops_filter, Hex; reflexivity|].
-    split; [reflexivity|]. split; [|split; [apply filter_wfc; exact Hw'|]].
+    split; [reflexivity|]. split; [|split; [apply filter_wfc; exact Hw'|split; [apply nodecells_filter; exact Hnc'|]]].
     + destruct Hg' as [Hp Hr]. split; [exact Hp|]. intros r Hr'. cbn [filter_tbl rows mkT] in Hr'.
       apply filter_In in Hr'. apply Hr. apply Hr'.
     + cbn [filter_tbl rows mkT cols].
@@ -184,29 +222,37 @@ Proof.
         rewrite filter_map_comm. reflexivity.
 Qed.
 
-Lemma hops_sem_g st hs : forall x i input t,
+Lemma hops_sem_g st hs : forall x i input t xs,
   sem_ops st input = Ok t -> good t x i -> wfc t -> hops_fresh (cols t) hs = true ->
+  nodecells t xs -> (forall y, List.In y xs -> List.In y (cols t)) -> ~ List.In anon xs ->
   exists t' x' i', sem_ops st (hops_plan x hs input) = Ok t' /\ good t' x' i' /\ wfc t' /\
+                   nodecells t' (xs ++ map (fun h => np_var (h_to h)) hs) /\
                    cols t' = cols t ++ flat_map (fun h => [edge_col (h_evar h); np_var (h_to h)]) hs /\
                    map (abs t' i') (rows t') = obind_hops_g st hs (map (abs t i) (rows t)).
 Proof.
-  induction hs as [|h hs IH]; intros x i input t Hs Hg Hw Hf.
-  - exists t, x, i. split; [exact Hs|split; [exact Hg|split; [exact Hw|split; [cbn; rewrite app_nil_r; reflexivity|reflexivity]]]].
+  induction hs as [|h hs IH]; intros x i input t xs Hs Hg Hw Hf Hnc Hxs Hna.
+  - exists t, x, i. split; [exact Hs|split; [exact Hg|split; [exact Hw|split; [cbn [map]; rewrite app_nil_r; exact Hnc|split; [cbn; rewrite app_nil_r; reflexivity|reflexivity]]]]].
   - destruct (hops_fresh_cons _ _ _ Hf) as [Hf1 Hf2].
-    destruct (hop_sem_g st h x i input t Hs Hg Hw Hf1) as (t1 & Hs1 & Hc1 & Hg1 & Hw1 & Ha1).
+    destruct (hop_sem_g st h x i input t xs Hs Hg Hw Hf1 Hnc Hxs Hna) as (t1 & Hs1 & Hc1 & Hg1 & Hw1 & Hnc1 & Ha1).
     rewrite <- Hc1 in Hf2.
-    destruct (IH (np_var (h_to h)) (S (List.length (cols t))) (hop_plan x h input) t1 Hs1 Hg1 Hw1 Hf2)
-      as (t' & x' & i' & Hs' & Hg' & Hw' & Hc' & Ha').
+    assert (Hxs1 : forall y, List.In y (np_var (h_to h) :: xs) -> List.In y (cols t1)).
+    { intros y [<-|Hy]; rewrite Hc1; apply in_or_app; [right; right; left; reflexivity|left; apply Hxs; exact Hy]. }
+    assert (Hna1 : ~ List.In anon (np_var (h_to h) :: xs)).
+    { intros [He|Hy]; [|exact (Hna Hy)]. destruct Hf1 as (_ & _ & Hf3 & _). rewrite He, String.eqb_refl in Hf3. discriminate Hf3. }
+    destruct (IH (np_var (h_to h)) (S (List.length (cols t))) (hop_plan x h input) t1 _ Hs1 Hg1 Hw1 Hf2 Hnc1 Hxs1 Hna1)
+      as (t' & x' & i' & Hs' & Hg' & Hw' & Hnc' & Hc' & Ha').
     exists t', x', i'. split; [exact Hs'|]. split; [exact Hg'|]. split; [exact Hw'|].
+    split; [eapply nodecells_incl; [|exact Hnc']; intros y Hy; cbn [map] in Hy; apply in_app_or in Hy;
+            destruct Hy as [Hy|[<-|Hy]]; [apply in_or_app; left; right; exact Hy|apply in_or_app; left; left; reflexivity|apply in_or_app; right; exact Hy]|].
     split; [rewrite Hc', Hc1; cbn [flat_map]; rewrite <- app_assoc; reflexivity|].
     cbn [obind_hops_g]. rewrite <- Ha1. exact Ha'.
 Qed.
 
 (** the operators enumerate the operational bindings of ANY pattern with fresh variables — single
     hops, bounded and unbounded variable-length hops alike, no defect class excluded *)
-Theorem chain_obindings_g st p :
+Lemma chain_obindings_nc st p :
   pat_fresh p = true ->
-  exists t, sem_ops st (chain_plan p) = Ok t /\ wfc t /\
+  exists t, sem_ops st (chain_plan p) = Ok t /\ wfc t /\ nodecells t (pat_nvars p) /\
             cols t = np_var (p_start p) :: flat_map (fun h => [edge_col (h_evar h); np_var (h_to h)]) (p_hops p) /\
             tbl_envs t = obindings_g st p.
 Proof.
@@ -224,9 +270,15 @@ Proof.
     - cbn. unfold nonanon. rewrite Hx. cbn. constructor; [intros []|constructor].
     - intros r Hr. cbn [rows t0 mkT] in Hr. unfold scan_rows in Hr. apply in_map_iff in Hr.
       destruct Hr as (n & <- & _). split; [reflexivity|]. repeat constructor. }
-  destruct (hops_sem_g st (p_hops p) x 0%nat (LScan x label) t0 eq_refl Hg0 Hw0 Hf)
-    as (t' & x' & i' & Hs' & Hg' & Hw' & Hc' & Ha').
-  exists t'. split; [exact Hs'|]. split; [exact Hw'|]. split; [exact Hc'|].
+  assert (Hn0 : nodecells t0 [x]).
+  { intros r y Hr [<-|[]]. cbn [rows t0 mkT] in Hr. unfold scan_rows in Hr. apply in_map_iff in Hr.
+    destruct Hr as (n & <- & _). exists (nid n). unfold col_cell, row_look. cbn. rewrite String.eqb_refl. reflexivity. }
+  assert (Hx0 : forall y, List.In y [x] -> List.In y (cols t0)) by (intros y Hy; exact Hy).
+  assert (Hna0 : ~ List.In anon [x]).
+  { intros [He|[]]. rewrite He, String.eqb_refl in Hx. discriminate Hx. }
+  destruct (hops_sem_g st (p_hops p) x 0%nat (LScan x label) t0 [x] eq_refl Hg0 Hw0 Hf Hn0 Hx0 Hna0)
+    as (t' & x' & i' & Hs' & Hg' & Hw' & Hnc' & Hc' & Ha').
+  exists t'. split; [exact Hs'|]. split; [exact Hw'|]. split; [exact Hnc'|]. split; [exact Hc'|].
   unfold tbl_envs, obindings_g.
   transitivity (map fst (map (abs t' i') (rows t'))); [rewrite map_map; reflexivity|].
   rewrite Ha'. f_equal. f_equal.
@@ -236,6 +288,16 @@ Proof.
   2:{ intros n _. unfold label. destruct (np_labels (p_start p)); reflexivity. }
   apply map_ext. intros n. unfold abs, row_env, cur_of. cbn. fold x. rewrite Hx. reflexivity.
 Qed.
+
+Theorem chain_obindings_g st p :
+  pat_fresh p = true ->
+  exists t, sem_ops st (chain_plan p) = Ok t /\ wfc t /\
+            cols t = np_var (p_start p) :: flat_map (fun h => [edge_col (h_evar h); np_var (h_to h)]) (p_hops p) /\
+            tbl_envs t = obindings_g st p.
+Proof.
+  intros Hf. destruct (chain_obindings_nc st p Hf) as (t & H1 & H2 & _ & H3 & H4). exists t. auto.
+Qed.
+
 
 (** * Walks over adjacency lists versus declarative walks *)
 Definition swap (te : Z * Z) : Z * Z := (snd te, fst te).
@@ -427,4 +489,161 @@ Proof.
   - rewrite Hsk, Hli. cbn [spec_skip spec_limit]. unfold project_envs, body_envs. apply Permutation_map. rewrite He.
     pose proof (obindings_g_perm st (q_pat q) Hok Hlive H2 H3 H4 H5 H6) as Hperm.
     unfold spec_where. destruct (q_where q); [apply Permutation_filter'; exact Hperm|exact Hperm].
+Qed.
+
+(** * GQL's placement of SKIP / LIMIT below RETURN (no ORDER BY): Return(Limit(Skip(body))).
+    A cutting SKIP / LIMIT copies the rows into Generic vectors; RETURN then reads a property through
+    the node id — right for node variables (edge variables: C08-K10). *)
+Definition props_on_nodes (p : pattern) (items : list lexpr) : bool :=
+  forallb (fun e => match e with EProp x _ => existsb (String.eqb x) (pat_nvars p) | _ => true end) items.
+
+Lemma col_cell_to_gen cs r x : col_cell cs (map to_gen r) x = to_gen (col_cell cs r x).
+Proof.
+  unfold col_cell, row_look. destruct (pos_last x cs) as [i|]; cbn [obind]; [|reflexivity].
+  rewrite nth_error_map. destruct (nth_error r i); reflexivity.
+Qed.
+Lemma ival_to_gen st cs r e :
+  (forall x k, e = EProp x k -> exists i, col_cell cs r x = CNode i) ->
+  ival st cs (map to_gen r) e = ival st cs r e.
+Proof.
+  intros H. destruct e; cbn [ival]; try reflexivity.
+  - rewrite col_cell_to_gen. reflexivity.
+  - rewrite col_cell_to_gen. destruct (H x k eq_refl) as [i Hi]. rewrite Hi. reflexivity.
+Qed.
+
+(** a row as the body produced it, or its copy into Generic vectors *)
+Definition gen_rel (r0 r : row) : Prop := r = r0 \/ r = map to_gen r0.
+Lemma to_gen_idem r : map to_gen (map to_gen r) = map to_gen r.
+Proof. rewrite map_map. apply map_ext. intros c. reflexivity. Qed.
+Lemma Forall2_refl_rel {A} (R : A -> A -> Prop) (l : list A) : (forall a, R a a) -> Forall2 R l l.
+Proof. intros H. induction l; constructor; auto. Qed.
+Lemma Forall2_map_gen (l : list row) : Forall2 gen_rel l (map (map to_gen) l).
+Proof. induction l; cbn; constructor; [right; reflexivity|assumption]. Qed.
+Lemma F2_len {A B} (R : A -> B -> Prop) l l' : Forall2 R l l' -> List.length l = List.length l'.
+Proof. induction 1; cbn; auto. Qed.
+Lemma skip_rel n rs rs0 : Forall2 gen_rel rs0 rs -> Forall2 gen_rel (skipn n rs0) (skip_rows n rs).
+Proof.
+  intros H. unfold skip_rows. destruct (Nat.eqb n 0) eqn:E; [apply Nat.eqb_eq in E; subst n; exact H|].
+  clear E. revert rs0 rs H. induction n as [|n IH]; intros rs0 rs H.
+  - cbn [skipn]. induction H as [|r0 r l0 l Hr _ IHl]; cbn; constructor; [|exact IHl].
+    destruct Hr as [-> | ->]; [right; reflexivity|right; apply to_gen_idem].
+  - destruct H as [|r0 r l0 l Hr Hl]; cbn [skipn map]; [constructor|]. apply IH. exact Hl.
+Qed.
+Lemma limit_rel n rs rs0 : Forall2 gen_rel rs0 rs -> Forall2 gen_rel (firstn n rs0) (limit_rows n rs).
+Proof.
+  intros H. unfold limit_rows. destruct rs as [|r rs'] eqn:Er.
+  - inversion H; subst. destruct n; constructor.
+  - rewrite <- Er in *. clear Er r rs'. destruct (Nat.leb n 0) eqn:E0.
+    + apply Nat.leb_le in E0. assert (n = 0%nat) by lia. subst n. constructor.
+    + destruct (Nat.leb (List.length rs) n) eqn:E1.
+      * apply Nat.leb_le in E1. rewrite firstn_all2; [exact H|]. rewrite (F2_len _ _ _ H). exact E1.
+      * clear E0 E1. revert rs0 rs H. induction n as [|n IH]; intros rs0 rs H; [constructor|].
+        destruct H as [|r0 r l0 l Hr Hl]; cbn [firstn map]; constructor; [|apply IH; exact Hl].
+        destruct Hr as [-> | ->]; [right; reflexivity|right; apply to_gen_idem].
+Qed.
+
+Lemma gen_rel_idlike r0 r : Forall is_ent r0 -> gen_rel r0 r -> Forall idlike r /\ List.length r = List.length r0.
+Proof.
+  intros He [-> | ->].
+  - split; [|reflexivity]. eapply Forall_impl; [|exact He]. apply is_ent_idlike.
+  - split; [|apply map_length]. apply Forall_forall. intros c Hc. apply in_map_iff in Hc. destruct Hc as (c0 & <- & Hc0).
+    rewrite Forall_forall in He. specialize (He c0 Hc0). destruct c0; cbn in *; auto; contradiction.
+Qed.
+
+Lemma Forall2_in_r {A B} (R : A -> B -> Prop) l l' b : Forall2 R l l' -> List.In b l' -> exists a, List.In a l /\ R a b.
+Proof.
+  induction 1 as [|a b' l l' Hr _ IH]; intros Hin; [destruct Hin|]. destruct Hin as [<-|Hin].
+  - exists a. split; [left; reflexivity|exact Hr].
+  - destruct (IH Hin) as (a' & Ha & Hr'). exists a'. split; [right; exact Ha|exact Hr'].
+Qed.
+Lemma in_firstn' {A} n : forall (l : list A) x, List.In x (firstn n l) -> List.In x l.
+Proof. induction n as [|n IH]; intros [|a l] x H; cbn in *; try contradiction. destruct H as [->|H]; [left; reflexivity|right; apply IH; exact H]. Qed.
+Lemma in_skipn' {A} n : forall (l : list A) x, List.In x (skipn n l) -> List.In x l.
+Proof. induction n as [|n IH]; intros [|a l] x H; cbn in *; try contradiction; [exact H|right; apply IH; exact H]. Qed.
+
+Theorem gql_limit_answer_l st q :
+  store_ok st -> single_hops (q_pat q) = true -> single_labels (q_pat q) = true -> pat_fresh (q_pat q) = true ->
+  no_type_case st (q_pat q) = true -> directed (q_pat q) = true ->
+  plain_core q = true -> q_order q = [] ->
+  match q_ret q with RPlain items _ => props_on_nodes (q_pat q) items | _ => true end = true ->
+  plan_rows st (gql_plan_of q) = answer st q.
+Proof.
+  intros Hok H1 H2 Hf H3 H4 Hp Ho Hpn. unfold plain_core in Hp. apply andb_true_iff in Hp. destruct Hp as [Hp Hw].
+  destruct (q_ret q) as [items dd|] eqn:Hr; [|discriminate Hp]. destruct dd; [discriminate Hp|].
+  destruct (chain_obindings_nc st (q_pat q) Hf) as (t0 & Hs0 & Hwf0 & Hnc0 & Hc0 & He0).
+  assert (Hv : forall x, List.In x (pat_vars (q_pat q)) -> List.In x (filter nonanon (cols t0))).
+  { intros x Hx. rewrite Hc0. apply pat_vars_cols; assumption. }
+  (* the body: WHERE over the chain *)
+  assert (Hbody : exists t, sem_ops st (where_plan (q_where q) (chain_plan (q_pat q))) = Ok t /\ wfc t /\ cols t = cols t0 /\
+                            nodecells t (pat_nvars (q_pat q)) /\
+                            tbl_envs t = spec_where st (q_where q) (obindings_g st (q_pat q))).
+  { unfold where_plan. destruct (q_where q) as [w|].
+    - assert (Hna : forall x, List.In x (expr_vars w) -> String.eqb x anon = false).
+      { intros x Hx. pose proof (Hv x (expr_vars_in_spec _ _ Hw x Hx)) as Hi. apply filter_In in Hi. destruct Hi as [_ Hi].
+        unfold nonanon in Hi. apply negb_true_iff in Hi. exact Hi. }
+      destruct (where_sem st w t0 Hwf0 Hna) as [Hwf' He'].
+      eexists. split; [rewrite sem_ops_filter, Hs0; reflexivity|]. split; [exact Hwf'|]. split; [reflexivity|].
+      split; [apply nodecells_filter; exact Hnc0|]. rewrite He', He0. reflexivity.
+    - exists t0. split; [exact Hs0|]. split; [exact Hwf0|]. split; [reflexivity|]. split; [exact Hnc0|]. rewrite He0. reflexivity. }
+  destruct Hbody as (t & Hs & Hwf & Hc & Hnc & He).
+  (* obindings_g = obindings = bindings for single-hop directed patterns *)
+  assert (Hob : obindings_g st (q_pat q) = bindings st (q_pat q)).
+  { rewrite <- (obindings_directed st (q_pat q) Hok H1 H2 H3 H4). unfold obindings_g, obindings. f_equal.
+    clear -H1. unfold single_hops in H1. rewrite forallb_forall in H1.
+    assert (Hh : forall hs acc, (forall h, List.In h hs -> h_len h = HOne) -> obind_hops_g st hs acc = obind_hops st hs acc).
+    { induction hs as [|h hs IH]; intros acc Hl; [reflexivity|]. cbn [obind_hops_g obind_hops].
+      rewrite IH by (intros h' Hh'; apply Hl; right; exact Hh'). f_equal. apply flat_map_ext_in. intros ec _.
+      unfold obind_hop_g, obind_hop, ostep_h. rewrite (Hl h (or_introl eq_refl)). reflexivity. }
+    apply Hh. intros h Hh'. specialize (H1 h Hh'). destruct (h_len h); [reflexivity|discriminate]. }
+  rewrite (answer_plain st q items Hr Ho). unfold body_envs. rewrite <- Hob, <- He.
+  (* the plan: Return over Limit over Skip over the body *)
+  unfold plan_rows, gql_plan_of. rewrite Hr, Ho. cbn [opt_sort].
+  set (cut := fun rs : list row => match q_limit q with Some n => limit_rows n (match q_skip q with Some s => skip_rows s rs | None => rs end)
+                                                    | None => match q_skip q with Some s => skip_rows s rs | None => rs end end).
+  set (tc := mkT (cols t) (cut (rows t))).
+  assert (Hcut : sem_ops st (opt_limit (q_limit q) (opt_skip (q_skip q) (where_plan (q_where q) (chain_plan (q_pat q))))) = Ok tc).
+  { unfold tc, cut. destruct (q_limit q) as [n|], (q_skip q) as [s|]; cbn [opt_limit opt_skip];
+      rewrite ?sem_ops_limit, ?sem_ops_skip, Hs; cbn [rbind]; try reflexivity; destruct t; reflexivity. }
+  set (envs := spec_limit (q_limit q) (spec_skip (q_skip q) (tbl_envs t))).
+  set (rows0 := spec_limit (q_limit q) (spec_skip (q_skip q) (rows t))).
+  assert (Hrel : Forall2 gen_rel rows0 (rows tc)).
+  { unfold rows0, tc, cut. cbn [rows mkT].
+    destruct (q_limit q) as [n|], (q_skip q) as [s|]; cbn [spec_limit spec_skip].
+    - apply limit_rel. apply skip_rel. apply Forall2_refl_rel. intros a. left. reflexivity.
+    - apply limit_rel. apply Forall2_refl_rel. intros a. left. reflexivity.
+    - apply skip_rel. apply Forall2_refl_rel. intros a. left. reflexivity.
+    - apply Forall2_refl_rel. intros a. left. reflexivity. }
+  assert (Hsub : forall r0, List.In r0 rows0 -> List.In r0 (rows t)).
+  { intros r0 Hr0. unfold rows0 in Hr0. destruct (q_limit q) as [n|], (q_skip q) as [s|]; cbn [spec_limit spec_skip] in Hr0;
+      try (apply in_firstn' in Hr0); try (apply in_skipn' in Hr0); exact Hr0. }
+  assert (Hitems : forallb (core_item (cols tc)) items = true).
+  { rewrite forallb_forall in Hp |- *. intros e He'. cbn [tc cols mkT].
+    eapply core_item_mono; [|apply Hp; exact He']. intros x Hx. rewrite Hc. pose proof (Hv x Hx) as Hi. apply filter_In in Hi. apply Hi. }
+  assert (Henvs : envs = map (row_env (cols t)) rows0).
+  { unfold envs, rows0, tbl_envs. destruct (q_limit q), (q_skip q); cbn [spec_limit spec_skip];
+      rewrite <- ?firstn_map', <- ?skipn_map'; reflexivity. }
+  destruct (return_sem_gen st items tc envs (cols tc)) as (t' & Hret & Hout); [|intros x Hx; exact Hx| | |].
+  - intros r Hr'. cbn [tc cols mkT]. destruct (Forall2_in_r _ _ _ _ Hrel Hr') as (r0 & Hr0 & Hg).
+    destruct Hwf as [_ Hwr]. destruct (Hwr r0 (Hsub r0 Hr0)) as [Hl He0'].
+    destruct (gen_rel_idlike r0 r He0' Hg) as [Hid Hlen]. split; [rewrite Hlen; exact Hl|].
+    intros x Hx. destruct (col_cell_in (cols t) r x Hx ltac:(rewrite Hlen; exact Hl)) as (c & _ & Hcc & Hcin).
+    rewrite Hcc. rewrite Forall_forall in Hid. apply Hid. exact Hcin.
+  - exact Hitems.
+  - rewrite Henvs. cbn [tc cols mkT].
+    assert (Hpair : forall r0 r, List.In r0 rows0 -> gen_rel r0 r ->
+                    map (ival st (cols t) r) items = map (item_val st (row_env (cols t) r0)) items).
+    { intros r0 r Hr0 Hg. pose proof (Hsub r0 Hr0) as Hin. destruct Hwf as [Hnd Hwr]. destruct (Hwr r0 Hin) as [Hl Hent].
+      transitivity (map (ival st (cols t) r0) items).
+      - destruct Hg as [-> | ->]; [reflexivity|]. apply map_ext_in. intros e He'. apply ival_to_gen. intros x k ->.
+        unfold props_on_nodes in Hpn. rewrite forallb_forall in Hpn. specialize (Hpn _ He'). change (existsb (String.eqb x) (pat_nvars (q_pat q)) = true) in Hpn. apply existsb_exists in Hpn.
+        destruct Hpn as (y & Hy & Hxy). apply String.eqb_eq in Hxy. subst y. apply (Hnc r0 x Hin Hy).
+      - apply map_ext_in. intros e He'. apply ival_item_val; try assumption.
+        rewrite forallb_forall in Hp. eapply core_item_mono; [|apply Hp; exact He']. intros x Hx. rewrite Hc. apply Hv. exact Hx. }
+    clear -Hrel Hpair. induction Hrel as [|r0 r l0 l Hg _ IH]; cbn [map]; constructor.
+    + apply Hpair; [left; reflexivity|exact Hg].
+    + apply IH. intros r0' r' Hin Hg'. apply Hpair; [right; exact Hin|exact Hg'].
+  - assert (Hfull : sem_ops st (LReturn (ret_items items) false (opt_limit (q_limit q) (opt_skip (q_skip q) (where_plan (q_where q) (chain_plan (q_pat q)))))) = Ok t')
+      by (cbn [sem_ops]; rewrite Hcut; exact Hret).
+    rewrite Hfull, Hout. unfold envs, project_envs. f_equal.
+    destruct (q_limit q), (q_skip q); cbn [spec_limit spec_skip]; rewrite <- ?firstn_map', <- ?skipn_map'; reflexivity.
 Qed.
